@@ -107,3 +107,45 @@ def text_of_tokens(tokens):
     for k, t in tokens:
         p += symstr.pieces_of(t)
     return symstr.show(symstr.mk(p))
+
+
+# ----------------------------------------------------------------------------- relationship fields
+_REL_SUMMARY = {}
+
+
+def parse_relations(F, tokens, allow_substvar=False):
+    """interpret Relations::parse_relaxed on a token sequence; returns (Relations value, errors, state, module)"""
+    if "S" not in _REL_SUMMARY:
+        tab = rp.lexer_table(F)
+        kinds = rp.lexer_kinds(tab)
+        (S, n), probs = rp.validate_peek_past_ws(F, kinds)
+        _REL_SUMMARY["S"] = S if not probs else None
+    S = _REL_SUMMARY["S"]
+    mod = DocMod(F, tokens, rp.KIND, {rp.LEX_FN: "vecfwd"}, rp.COMPOSITE)
+    mod.summaries = {rp.PEEK_PAST_WS: ("peek_skipping", S or frozenset(), "tokens")}
+    I = hirai.Interp(F, mod, max_depth=16)
+    I.max_recursion = 8
+    res = I.inline(F.fn("debian_control::lossless::relations::Relations::parse_relaxed"), [("abs", "text"), ("bool", allow_substvar)], hirai.State(depth=0))
+    if len(res) != 1 or res[0][0] != OK:
+        return None, None, None, mod
+    v = res[0][1]
+    rels, errs = v[1]
+    return rels, errs, res[0][2], mod
+
+
+REL_LIT = {"COLON": ":", "PIPE": "|", "COMMA": ",", "L_PARENS": "(", "R_PARENS": ")", "L_BRACKET": "[", "R_BRACKET": "]", "NOT": "!", "L_ANGLE": "<", "R_ANGLE": ">",
+           "EQUAL": "=", "DOLLAR": "$", "L_CURLY": "{", "R_CURLY": "}", "NEWLINE": "\n"}
+
+
+def rt(kind, text=None):
+    if text is None:
+        text = REL_LIT[kind]
+    return (kind, symstr.lit(text) if isinstance(text, str) else text)
+
+
+def ident(name, symbolic=False):
+    return ("IDENT", symstr.atom(name, "word") if symbolic else symstr.lit(name))
+
+
+def ws(text=" "):
+    return ("WHITESPACE", symstr.lit(text))
